@@ -56,7 +56,7 @@ type SnapArg struct {
 	Producer   string      `json:"producer"`        // iocopy | readfrom | write
 	Cuts       []int       `json:"cuts,omitempty"`  // chunk sizes, used cyclically (readfrom, write)
 	PrefixCuts []PrefixCut `json:"prefix_cuts,omitempty"`
-	EmptyAt    []int       `json:"empty_at,omitempty"` // producer write: an empty Write (empty chunk) before these chunk numbers
+	EmptyAt    []int       `json:"empty_at,omitempty"`  // producer write: an empty Write (empty chunk) before these chunk numbers
 	WireComp   string      `json:"wire_comp,omitempty"` // compressor applied to every frame on the fake wire
 	Consumer   string      `json:"consumer"`            // writeto | read | backup
 	ReadBufs   []int       `json:"read_bufs,omitempty"` // Reader.Read buffer sizes (raised to the largest chunk)
